@@ -3,7 +3,7 @@
 # (prefix: r2, r3, ... -> seeded/<prefix>-<prop>-m<n>)
 set -u
 rd=$1; pre=$2; p=$3; shift 3
-cd /verif
+cd "$(dirname "$(realpath "$0")")/.."
 for m in m1 m2; do
   src=$rd/$p/out/$m
   [ -f $src/patch.diff ] || { echo "== $pre-$p-$m missing"; continue; }
